@@ -80,7 +80,7 @@ def build(r, style, kind=None, default_ns=None):
                              'delete-sub', 'model', 'model-version', 'model-2tables', 'union', 'where-sub-join', 'target-sub-join',
                              'model-twice', 'model-twice', 'qualified-cols', 'delete-qualified', 'update-qualified', 'model-select',
                              'model-sub-twice', 'cte-named-like-foreign-table', 'table-named-like-model', 'schema-named-like-integration', 'ts-model-join', 'native-query', 'schema-named-like-integration', 'table-named-like-model',
-                             'twin-tables', 'unqualified-via-default-namespace'])
+                             'twin-tables', 'unqualified-via-default-namespace', 'same-int-join-foreign-sub', 'same-int-join-foreign-sub'])
     c.positions.add(kind)
     if kind == 'table-named-like-model':
         # a data table whose name is also the name of a model in the catalog (of the default project, or of another project)
@@ -169,6 +169,22 @@ def build(r, style, kind=None, default_ns=None):
             f'SELECT a1.c, a2.c FROM {ts_} AS a1 JOIN {t2} AS a2 ON a1.k = a2.k WHERE a1.x > 1',
             f'SELECT a2.c FROM {t2} AS a2 WHERE a2.k IN (SELECT a1.c FROM {ts_} AS a1)',
             f'SELECT a2.c, a1.c FROM {t2} AS a2 JOIN {ts_} AS a1 ON a1.k = a2.k']), c
+    if kind == 'same-int-join-foreign-sub':
+        # every JOINED table lives in one integration; a sub-query outside FROM (WHERE / select list / CASE / function argument) reads
+        # another integration: the statement as a whole is not that integration's
+        home1 = r.choice(INTS)
+        other = r.choice([i for i in INTS if i != home1])
+        ta, tb = c.tbl(home1), c.tbl(home1)
+        sub = f'SELECT s1.c FROM {c.tbl(other)} AS s1 WHERE s1.k > 1'
+        frm = f'{ta} AS a1 {r.choice(["JOIN", "LEFT JOIN"])} {tb} AS a2 ON a1.k = a2.k'
+        shape = r.randrange(4)
+        if shape == 0:
+            return f'SELECT a1.c, a2.c FROM {frm} WHERE a1.x IN ({sub})', c
+        if shape == 1:
+            return f'SELECT a1.c, ({sub} LIMIT 1) AS sc FROM {frm}', c
+        if shape == 2:
+            return f'SELECT CASE ({sub} LIMIT 1) WHEN 1 THEN a1.c ELSE a2.c END AS v FROM {frm}', c
+        return f'SELECT coalesce(({sub} LIMIT 1), a2.c) AS v FROM {frm} WHERE a1.k = 1', c
     t1 = c.tbl()
     if kind == 'from':
         return f'SELECT a1.c FROM {t1} AS a1 WHERE a1.k = 1', c
